@@ -14,7 +14,7 @@ from mc.result import Result
 PROPERTY = 'C08'
 LEVEL = 'exploration'
 CHUNK = 60
-RULE = ('Part 1: all sequences of <= 2 placed statements over {def A, def B referencing A, def B, use A, use B, redefinition of A with another type, definition of a builtin name} x phases '
+RULE = ('Part 1: all sequences of <= 2 placed statements over {def A, def B referencing A, def B, use A, use B, redefinition of A with another type, definition of a builtin name, self-referential definition} x phases '
         '{setup, act (uses), before-assert, assert, cleanup}, and all sequences of 3 over {def A, def B(A), use A, use B} x 4 phases, each in 2..3 file orders of the phase blocks; '
         'Part 2: 17 ways a symbol reaches a context (7 types directly; string built from string / list / path through 1 and 2 definitions; list/path next to a string sibling; list holding a path) x 22 contexts '
         'with a documented demand x phase of use; Part 3: value rendering (concatenation, list splicing, list in string, absolute paths, -rel-cd at reference time); '
@@ -36,6 +36,7 @@ STMTS = {
     'UB': ('use', None, ['B'], 'run % probe B=@[B]@'),
     'DA2': ('def', 'A', [], 'def list A = x y'),
     'DBI': ('def', 'EXACTLY_ACT', [], "def string EXACTLY_ACT = 'x'"),
+    'DAS': ('def', 'A', ['A'], 'def string A = "a@[A]@"'),  # a definition referring to itself: reference before definition
 }
 VALUES = {'A': 'a', 'B': 'ba', 'B0': 'b'}
 
